@@ -132,13 +132,13 @@ def conf1 : Conf := { pools := [pool1], nodes := [("n1", 168362245), ("n2", 1683
     only after the old pod's event unassigned the address (the bind before the event waits: UID guard) -/
 def good1 : List Move := [
   .scale .sts "ns1" "a" 1,
-  .createPod "ns1" "a-0" .sts "a" "" 1 [] true,
+  .createPod "ns1" "a-0" .sts "a" "" 2 [] true,
   .listerSync true true,
   .filter "ns1" "a-0" ["n1", "n2"] {} 0,
   .bind "ns1" "a-0" 1 "n1" { pick := some 168427522 } 0 1,       -- AssignIP fails cleanly
   .bind "ns1" "a-0" 1 "n1" {} 0 0,                                -- the retry, same node
   .deletePod "ns1" "a-0",
-  .createPod "ns1" "a-0" .sts "a" "" 1 [] true,
+  .createPod "ns1" "a-0" .sts "a" "" 2 [] true,
   .listerSync true true,
   .bind "ns1" "a-0" 2 "n2" {} 0 0,                                -- waits for the delete event of the old pod
   .deliver 0 0 1,                                                 -- UnAssignIP fails cleanly, the event is re-queued
@@ -162,7 +162,7 @@ example : (run Galaxy.Plugin.facts (init conf1) good1).plog =
 /-- DESIGN D14 (corpus/C10/d14.ops): a-0 is bound on n1; the scheduler binds the same pod again on n2 -/
 def d14 : List Move := [
   .scale .sts "ns1" "a" 1,
-  .createPod "ns1" "a-0" .sts "a" "" 1 [] true,
+  .createPod "ns1" "a-0" .sts "a" "" 2 [] true,
   .listerSync true true,
   .filter "ns1" "a-0" ["n1", "n2"] {} 0,
   .bind "ns1" "a-0" 1 "n1" { pick := some 168427522 } 0 0 ]
